@@ -225,6 +225,13 @@ def run(ctx):
                         real = rp.ask("loader_step %d %d %d" % (int(fopen), int(bopen), w))
                         realb = real_behaviour(real)
                         if realb == exp:
+                            # the deviation may need a function that already has a finished block (the empty one of the first probe hides it)
+                            real2 = rp.ask("loader_step %d %d %d closed" % (int(fopen), int(bopen), w)) if fopen else {}
+                            if real2.get("closed_block_grew"):
+                                ctx.ob("loader/%s/%s/%s" % (state, c, nm), False, "a finished block received the instruction: %s" % real2)
+                                ctx.violation("loader/%s/filed-into-a-finished-block" % nm, "in state (%s) with a finished block in the open function, Op%s is put into that finished "
+                                              "block (%s); the layout/bracketing rules demand %s" % (state, nm, real2, exp), {"cmd": "loader_step %d %d %d closed" % (int(fopen), int(bopen), w), "real": real2})
+                                continue
                             ctx.ob("loader/%s/%s/%s" % (state, c, nm), None, "model deviates (%s) but the compiled crate conforms (%s)" % (beh, real))
                             continue
                         ctx.ob("loader/%s/%s/%s" % (state, c, nm), False, "expected %s, got %s" % (exp, realb))
